@@ -171,6 +171,29 @@ def _run_traced(shard):
     return r
 
 
+def _run_other_byteorder(shard):
+    """("__byteorder__", s): shard s with sys.byteorder reporting the OTHER byte order (a big-endian host): DALI byte order
+    is wire order and must not follow the CPU.  (Only Python-level uses of sys.byteorder are affected.)"""
+    old = sys.byteorder
+    sys.byteorder = "big" if old == "little" else "little"
+    try:
+        r = _CHECK.run_shard(shard[1])
+    finally:
+        sys.byteorder = old
+    for v in r["violations"]:
+        v["case"] = {"__shard__": jsonable(shard), "__inner__": jsonable(v["case"])}
+        v["message"] = "[sys.byteorder reporting a big-endian host] " + v["message"]
+    observe(r, "shards_rerun_with_other_byteorder", 1)
+    return r
+
+
+def byteorder_of(chk, tier):
+    stride = (getattr(chk, "BYTEORDER_STRIDE", None) or {}).get(tier)
+    if not stride:
+        return []
+    return [("__byteorder__", s) for s in list(chk.shards(tier))[(2 * stride) // 3::stride]]
+
+
 def traced_of(chk, tier):
     """Checks that declare TRACE_STRIDE = {tier: k}: every k-th shard is run once more with logging enabled down to TRACE."""
     stride = (getattr(chk, "TRACE_STRIDE", None) or {}).get(tier)
@@ -213,6 +236,8 @@ def _worker_run(shard):
             r = _run_optimised(shard)
         elif shard and shard[0] == "__trace__":
             r = _run_traced(shard)
+        elif shard and shard[0] == "__byteorder__":
+            r = _run_other_byteorder(shard)
         else:
             r = _CHECK.run_shard(shard)
     except BaseException:
@@ -256,7 +281,7 @@ def run_check(cid, tier, jobs=None):
     logging.disable(logging.CRITICAL)
     repo.setup()
     chk = load_check(cid)
-    shards = list(chk.shards(tier)) + chains_of(chk, tier) + optimised_of(chk, tier) + traced_of(chk, tier)
+    shards = list(chk.shards(tier)) + chains_of(chk, tier) + optimised_of(chk, tier) + traced_of(chk, tier) + byteorder_of(chk, tier)
     random.Random(seed).shuffle(shards)
     shards.sort(key=lambda x: 0 if x and x[0] == "__chain__" else 1)      # the long tasks first
     jobs = jobs or int(os.environ.get("VERIF_JOBS", "0") or 0) or min(16, os.cpu_count() or 1)
